@@ -138,7 +138,7 @@ def run(ck, rng):
             if massive:
                 args += ["--massive"]     # mkdir has no --massive flag: a usage error
                 expect_usage_err = True
-            pre += [(b"sentinel", "d")] + ([(b"tgt/" + merged_items(items)[0][0][1], "d")] if rng.random() < 0.15 and target == b"tgt" and b"/" not in merged_items(items)[0][0][1] else [])
+            pre += [(b"sentinel", "d")] + ([(b"tgt/" + merged_items(items)[0][0][1], "d")] if rng.random() < 0.15 and target == b"tgt" and b"/" not in merged_items(items)[0][0][1] and b"\x00" not in merged_items(items)[0][0][1] and len(merged_items(items)[0][0][1]) <= 255 and merged_items(items)[0][0][1] not in (b".", b"..") else [])
             if dry:
                 lib = "hist F,%s;o,d,1,0,%s,%s,%s" % (snap_arg(pre), bf_csv(BF_DEFAULT), exts_plus(exts), hx(doc))
             else:
